@@ -45,10 +45,17 @@ type stubStream struct {
 	recvCalls atomic.Int64
 	// recvReturns counts the items handed to the client by Recv
 	recvReturns atomic.Int64
+	// breakOnSendErr: once a Send has failed the stream is broken, as a gRPC stream is: Recv
+	// returns the error too
+	breakOnSendErr bool
+	broken         chan struct{}
+	brokenOnce     sync.Once
+	sendFailed     atomic.Bool
+	recvReturnsErr atomic.Bool
 }
 
 func newStubStream(ctx context.Context) *stubStream {
-	return &stubStream{ctx: ctx, failSendAt: -1, recvCh: make(chan recvItem, 1024), closed: make(chan struct{})}
+	return &stubStream{ctx: ctx, failSendAt: -1, recvCh: make(chan recvItem, 1024), closed: make(chan struct{}), broken: make(chan struct{})}
 }
 
 func (s *stubStream) Send(m *spb.ModifyRequest) error {
@@ -62,6 +69,10 @@ func (s *stubStream) Send(m *spb.ModifyRequest) error {
 	s.mu.Lock()
 	defer s.mu.Unlock()
 	if s.failSendAt >= 0 && len(s.sent) >= s.failSendAt {
+		s.sendFailed.Store(true)
+		if s.breakOnSendErr {
+			s.brokenOnce.Do(func() { close(s.broken) })
+		}
 		return s.sendErr
 	}
 	s.sent = append(s.sent, m)
@@ -74,7 +85,13 @@ func (s *stubStream) Recv() (*spb.ModifyResponse, error) {
 	select {
 	case it := <-s.recvCh:
 		s.recvReturns.Add(1)
+		if it.err != nil {
+			s.recvReturnsErr.Store(true)
+		}
 		return it.resp, it.err
+	case <-s.broken:
+		s.recvReturnsErr.Store(true)
+		return nil, s.sendErr
 	case <-s.closed:
 		return nil, io.EOF
 	case <-s.ctx.Done():
